@@ -11,7 +11,10 @@ def _graph_texts(c, n):
         cfg = gen.TreeCfg(wellformed=True, max_nodes=6, max_depth=4, p_meta=0.6, exotic_symbols=0.05)
         node, meta = gen.random_tree(c.rng, cfg)
         try:
-            s = penman.format(penman.Tree(node, metadata=meta), indent=c.rng.choice([None, -1, 0, 3]), compact=c.rng.random() < 0.3)
+            # the metadata lines are written here, one "# ::key value" line per entry as the documentation shows them, not by the
+            # formatter under test: what the pool texts say must not depend on it
+            s = ''.join('# ::%s%s\n' % (k, ' ' + v if v else '') for k, v in (meta or {}).items() if k)
+            s += penman.format(penman.Tree(node), indent=c.rng.choice([None, -1, 0, 3]), compact=c.rng.random() < 0.3)
             penman.decode(s)
         except Exception:
             continue
